@@ -401,6 +401,8 @@ def _evaluate(e, env, bits=64):
             import math
             x_ = float(args[0])
             return int(math.isfinite(x_) if name == "is_finite" else (math.isnan(x_) if name == "is_nan" else math.isinf(x_)))
+        if name == "clamp" and len(args) == 3 and all(isinstance(a, (int, float)) and not isinstance(a, bool) for a in args):
+            return max(args[1], min(args[0], args[2]))
         if name == "to_bits" and len(args) == 1 and isinstance(args[0], float):
             import struct as _st
             return _st.unpack("<Q", _st.pack("<d", args[0]))[0]
